@@ -47,12 +47,19 @@ impl PieceMoves {
 
     /// Check if it contains a given [`Move`].
     pub fn has(&self, mv: Move) -> bool {
-        let has_promotion = mv.promotion.is_some();
         let is_promotion = self.piece == Piece::Pawn &&
             matches!(mv.to.rank(), Rank::First | Rank::Eighth);
+        let promotion_matches = if is_promotion {
+            matches!(
+                mv.promotion,
+                Some(Piece::Knight | Piece::Bishop | Piece::Rook | Piece::Queen)
+            )
+        } else {
+            mv.promotion.is_none()
+        };
         self.from == mv.from
             && self.to.has(mv.to)
-            && (has_promotion == is_promotion)
+            && promotion_matches
     }
 }
 
